@@ -292,6 +292,12 @@ class Exec(object):
             g = self.module_globals.setdefault(mod.short, {})
             if name in g:
                 return g[name]
+            gi = getattr(mod, 'global_inits', {})
+            if name in gi:
+                # module-level cdef constant with an initialiser (never reassigned constants such as NN, MM)
+                v = self.convert(self.eval(gi[name]), mod.globals_ctypes.get(name), 0, name)
+                g[name] = v
+                return v
             if name in mod.functions:
                 return FuncRef(mod.functions[name])
             if name in mod.classes:
@@ -373,6 +379,8 @@ class Exec(object):
             v = self.fresh(name, INT)
             if not ct[1]:
                 self.assume_fact(tm.ge(v, tm.mk_int(0)))
+                if len(ct) > 2 and ct[2]:
+                    self.assume_fact(tm.lt(v, tm.mk_int(1 << ct[2])))      # value range of the unsigned C type
             return v
         if k == 'bint':
             return self.fresh(name, BOOL)
